@@ -122,8 +122,10 @@ class C04(Check):
         if not ok:
             return
         pl = res.point_labels
-        if not isinstance(pl, list) or len(pl) != S:
-            c.prove('joint_labels_shape_and_margins', False, detail={'n_lists': repr(len(pl))})
+        if not isinstance(pl, list) or len(pl) != S or not all(isinstance(x, list) for x in pl):
+            c.prove('joint_labels_shape_and_margins', False,
+                    detail={'n_entries': repr(len(pl)) if isinstance(pl, list) else repr(type(pl)),
+                            'entry_types': sorted({type(x).__name__ for x in pl}) if isinstance(pl, list) else None})
             return
         self._judge(c, ml, res, pl, lens, W, N, K, 'joint')
 
@@ -155,8 +157,9 @@ class C04(Check):
             if not ok:
                 return
             pl = res.point_labels if joint else [res.point_labels]
-            if not isinstance(pl, list) or len(pl) != S:
-                c.prove('%s_labels_shape_and_margins' % which, False, detail={'n_lists': repr(len(pl))})
+            if not isinstance(pl, list) or len(pl) != S or not all(isinstance(x, list) for x in pl):
+                c.prove('%s_labels_shape_and_margins' % which, False,
+                        detail={'n_entries': repr(len(pl)) if isinstance(pl, list) else repr(type(pl))})
                 return
             self._judge(c, ml, res, pl, lens, w, N, K, which)
 
